@@ -281,26 +281,81 @@ func gate(r *c.Rng, auth *c.FakeAuth, dir string, g gateCase) c.Case {
 	if g.GroupsErr {
 		profile = c.Answer{Status: 500, Body: "boom"}
 	}
-	redeem := c.Answer{Status: 200, Body: c.JSONBody(map[string]interface{}{
-		"access_token": "at", "refresh_token": "rt", "expires_in": 7200, "email": g.Email})}
-	auth.Set(c.AuthScript{Redeem: redeem, Profile: profile, Validate: c.Answer{Status: 200, Body: "{}"}})
+	redeemFor := func(email string) c.Answer {
+		return c.Answer{Status: 200, Body: c.JSONBody(map[string]interface{}{
+			"access_token": "at", "refresh_token": "rt", "expires_in": 7200, "email": email})}
+	}
+	// the authenticator answers /profile for the user NAMED BY THE REQUEST (sso-auth reads the first `email` parameter)
+	// and for the access token PRESENTED (an identity provider refuses a lapsed token)
+	const prev = "prev.member@example.com"
+	profileFor := map[string]c.Answer{g.Email: profile}
+	if g.Email != prev {
+		var all []string
+		for _, x := range g.Groups {
+			if x != "*" {
+				all = append(all, x)
+			}
+		}
+		profileFor[prev] = c.Answer{Status: 200, Body: c.JSONBody(map[string]interface{}{"email": prev, "groups": append(all, "g1", "g2", "eng")})}
+	}
+	lapsed := ""
+	auth.Set(c.AuthScript{Redeem: redeemFor(g.Email), Profile: profile, Validate: c.Answer{Status: 200, Body: "{}"},
+		Refresh: c.Answer{Status: 201, Body: c.JSONBody(map[string]interface{}{"access_token": "at2", "expires_in": 7200})}})
+	auth.SetFn(func(ep string, q *http.Request) *c.Answer {
+		if ep != "profile" {
+			return nil
+		}
+		if lapsed != "" && q.Header.Get("X-Access-Token") == lapsed {
+			return &c.Answer{Status: 401, Body: "{\"error\":\"token expired\"}"}
+		}
+		first := ""
+		if v := q.URL.Query()["email"]; len(v) > 0 {
+			first = v[0]
+		}
+		if a, ok := profileFor[first]; ok {
+			return &a
+		}
+		return &c.Answer{Status: 200, Body: c.JSONBody(map[string]interface{}{"email": first, "groups": []string{}})}
+	})
+	defer auth.SetFn(nil)
 
-	// start a flow to get genuine state + CSRF cookie
-	rec := w.Do(c.NewReq("GET", host, "/"))
-	loc, _ := url.Parse(rec.Header().Get("Location"))
-	state := loc.Query().Get("state")
-	var csrf *http.Cookie
-	for _, ck := range rec.Result().Cookies() {
-		if ck.Name == w.CookieName+"_csrf" {
-			csrf = ck
+	flow := func() (string, *http.Cookie) {
+		rec := w.Do(c.NewReq("GET", host, "/"))
+		loc, _ := url.Parse(rec.Header().Get("Location"))
+		var csrf *http.Cookie
+		for _, ck := range rec.Result().Cookies() {
+			if ck.Name == w.CookieName+"_csrf" {
+				csrf = ck
+			}
+		}
+		st := ""
+		if loc != nil {
+			st = loc.Query().Get("state")
+		}
+		return st, csrf
+	}
+	// another user — a member of every group — logs in first on the same proxy instance: nothing of that login may
+	// carry over into the verdict on this case's user
+	if len(g.Groups) > 0 && g.Email != prev && r.Chance(0.6) {
+		if st, ck := flow(); st != "" && ck != nil {
+			auth.Set(c.AuthScript{Redeem: redeemFor(prev), Profile: profileFor[prev], Validate: c.Answer{Status: 200, Body: "{}"}})
+			cbp := c.NewReq("GET", host, "/oauth2/callback?code=prev&state="+url.QueryEscape(st))
+			cbp.AddCookie(&http.Cookie{Name: ck.Name, Value: ck.Value})
+			w.Do(cbp)
+			auth.Set(c.AuthScript{Redeem: redeemFor(g.Email), Profile: profile, Validate: c.Answer{Status: 200, Body: "{}"},
+				Refresh: c.Answer{Status: 201, Body: c.JSONBody(map[string]interface{}{"access_token": "at2", "expires_in": 7200})}})
 		}
 	}
+
+	// start a flow to get genuine state + CSRF cookie
+	state, csrf := flow()
 	if state == "" || csrf == nil {
-		c.Must(fmt.Errorf("could not start flow: status %d", rec.Code))
+		c.SetupFailed("could not start a sign-in flow on the case's upstream")
+		state, csrf = "x", &http.Cookie{Name: w.CookieName + "_csrf", Value: "x"}
 	}
 	cb := c.NewReq("GET", host, "/oauth2/callback?code=abc&state="+url.QueryEscape(state))
 	cb.AddCookie(&http.Cookie{Name: csrf.Name, Value: csrf.Value})
-	rec = w.Do(cb)
+	rec := w.Do(cb)
 	eff, val := c.CookieEffect(rec, w.CookieName)
 	login := eff == "set" && rec.Code == http.StatusFound
 	var oReq, oRev *bool
@@ -314,7 +369,14 @@ func gate(r *c.Rng, auth *c.FakeAuth, dir string, g gateCase) c.Case {
 		oReq = &served
 		// first revalidation: same session, validity period elapsed
 		s := w.Open(val)
-		s.ValidDeadline = time.Now().Add(-2 * time.Minute)
+		if r.Chance(0.5) {
+			s.ValidDeadline = time.Now().Add(-2 * time.Minute)
+		} else {
+			// the access token has lapsed: the due check is a refresh, and the group question is then asked with the NEW
+			// token (the identity provider refuses the lapsed one)
+			s.RefreshDeadline = time.Now().Add(-2 * time.Minute)
+			lapsed = s.AccessToken
+		}
 		rv := c.NewReq("GET", host, "/page")
 		rv.AddCookie(&http.Cookie{Name: w.CookieName, Value: w.Seal(s)})
 		w.Do(rv)
@@ -383,6 +445,35 @@ func main() {
 	auth := c.NewFakeAuth()
 	defer auth.Srv.Close()
 	var cases []c.Case
+	if a.Mode == "gateonly" {
+		// login gate of one upstream behind a wide-open decoy, SINGLE rule kind only (the two open C11 findings need two
+		// kinds, so none of these cases can show them): attached to C01, whose statement includes "the user satisfies one
+		// of the upstream's allow rules"
+		for i := 0; i < a.N; i++ {
+			g := genGate(r)
+			switch i % 3 {
+			case 0:
+				g.Doms, g.Groups = nil, nil
+				if len(g.Addrs) == 0 {
+					g.Addrs = []string{"bob@b.com", "sam.k@example.com"}
+				}
+			case 1:
+				g.Addrs, g.Groups = nil, nil
+				if len(g.Doms) == 0 {
+					g.Doms = []string{"example.com"}
+				}
+			default:
+				g.Addrs, g.Doms = nil, nil
+				if len(g.Groups) == 0 {
+					g.Groups = []string{"g1"}
+				}
+			}
+			cases = append(cases, gate(r, auth, dir, g))
+		}
+		c.Must(c.WriteShards(a.Out, "Corr_C11", cases, a.Shard))
+		fmt.Printf("cases=%d\n", len(cases))
+		return
+	}
 	// corpus: the witnesses of the known findings and hand-written boundary cases, first
 	corpus := []gateCase{
 		{Addrs: []string{"bob@b.com"}, Doms: []string{"a.com"}, Email: "bob@b.com", UserGroups: []string{}},
